@@ -3,6 +3,7 @@
   conversion pipeline `topicosvg` (svg.py:1332-1379).
 -/
 import PicoSVG.Model.Simplify
+import PicoSVG.Model.ViewBox
 
 namespace PicoSVG
 open DocM Traverse
@@ -117,6 +118,34 @@ def topicosvg (ndigits : Int) (allowText dropUnsupported noneGood : Bool) : DocM
     -- the elements the gate dropped may have been the only users of a gradient, or have left a group underfull:
     -- the closing loop runs once more
     if dropUnsupported then (elements >>= fun l => pruneLoop ndigits (l.length + 2)) else pure ()
+
+/-- `set_attributes(name_values)` with the default xpath `/svg:svg`: flush, then assign on the root -/
+def setRootAttributes (kvs : List (String × String)) : DocM Unit := do
+  updateEtree
+  let root ← getRoot
+  setRoot (root.setAttrs (kvs.foldl (fun a (k, v) => a.set k v) root.attrs))
+
+/-- `remove_attributes(names)` with the default xpath: flush, then `_del_attrs` on the root -/
+def removeRootAttributes (names : List String) : DocM Unit := do
+  updateEtree
+  let root ← getRoot
+  setRoot (root.setAttrs (names.foldl (fun a k => a.del k) root.attrs))
+
+/-- `bounding_box()`: the union of the shapes' Skia bounding boxes, `none` without shapes (a query: loads the cache) -/
+def boundingBox : DocM (Option (Rect Float)) := do
+  let l ← elements
+  let mut boxes : List (Rect Float) := []
+  for (_, shs) in l do
+    for sh in shs do
+      let cmds ← liftE sh.asCmdSeq
+      let (x1, y1, x2, y2) ← askBox (qCmds "bounding_box" cmds "")
+      boxes := boxes ++ [⟨x1, y1, x2 - x1, y2 - y1⟩]
+  pure (docBBox boxes)
+
+/-- `view_box()`: reads the root's viewBox (or width / height) — no flush, the root is not a cached shape -/
+def viewBoxQ : DocM (Option (Rect Float)) := do
+  let root ← getRoot
+  liftE (viewBox root)
 
 /-- `toetree()` / `tostring()`: flush and hand out the tree -/
 def toTree : DocM Node := do
